@@ -266,7 +266,9 @@ def showPVals (l : List (Option PVal)) : String := if l.isEmpty then "e" else "|
 
 /-- `pulses pcfg=<0|1><d|s|a> held=<ideal,…|N> noise=<n;n;…|N> rng=<i,…|N> calls=<0|1,…>`: a processor holding one
 pulse per entry of `held` (no noise element yet), its noise objects, a history of `get_noisy_pulses(device_noise=c)`;
-per call `ok <returned pulses>` or `err <kind>`, then ` @<the pulses the processor holds>` -/
+per call `ok <returned pulses>` or `err <kind>`, then ` @<the pulses the processor holds>`, then ` #<length of the
+owner's list of noise objects>`; optional `lcopy=<0|1>` (a copy of that list is made before `RelaxationNoise(t1, t2)` is
+appended) and `t12=<its collapse operators|N>` -/
 def pulsesCmd (fs : List String) : Option String := do
   let pc ← fStr? fs "pcfg"
   let cfg : PCfg ← match pc.toList with
@@ -286,12 +288,17 @@ def pulsesCmd (fs : List String) : Option String := do
     { lists := ⟨List.replicate (2 * k) []⟩,
       pulses := (List.range k).map fun i => ⟨ideals.getD i 0, 2 * i, 2 * i + 1⟩ }
   let st0 : PState := { w := w, held := List.range k, noise := noise, rng := rng }
+  let lcopy := (fStr? fs "lcopy").getD "1" != "0"
+  let relax : Option (List Int) := match fStr? fs "t12" with
+    | none => none
+    | some "N" => none
+    | some t => usList? t
   let (_, outs) := calls.foldl (fun (acc : PState × List String) c =>
-      let r := getNoisy cfg acc.1 (c != 0)
+      let r := getNoisyT cfg lcopy relax acc.1 (c != 0)
       let o := match retVal r.1.w r.2 with
         | .ok vs => "ok " ++ showPVals vs
         | .error e => "err " ++ errName e
-      (r.1, acc.2 ++ [o ++ " @" ++ showPVals (pulsesVal r.1.w r.1.held)])) (st0, [])
+      (r.1, acc.2 ++ [o ++ " @" ++ showPVals (pulsesVal r.1.w r.1.held) ++ s!" #{r.1.noise.length}"])) (st0, [])
   pure (" ; ".intercalate outs)
 
 def parseLists (s : String) : Option (List (List Int)) :=
